@@ -92,6 +92,9 @@ func (b *fencedCodeBlockParser) Continue(node ast.Node, reader text.Reader, pc C
 		pos = util.FirstNonSpacePosition(line)
 		if pos < 0 {
 			pos = 0
+		} else {
+			// line starts with the segment's padding, pos counts from segment.Start
+			pos -= segment.Padding
 		}
 		padding = 0
 	}
